@@ -28,7 +28,7 @@ EXPLANATION = "direct exploration of nodal_state_space_model and Circuit.state_s
 
 
 def budget_s(tier):
-    return 400 if tier == "quick" else 3600
+    return 1200 if tier == "quick" else 7200
 
 
 # (nodes, branches, id mode, kind filter, orientation mode)
